@@ -17,7 +17,10 @@
 (* With env = TRUE (runs that had concurrent builders, C09) the other      *)
 (* processes are environment: a final name may have been published         *)
 (* (absent -> ok) and a directory created by somebody else at any time;    *)
-(* no ordering between processes is assumed.                               *)
+(* no ordering between processes is assumed.  Runs recorded without        *)
+(* following children (fo = FALSE on their events) cannot show what a      *)
+(* spawned compiler created: after such a child has finished, a temporary  *)
+(* name we never saw may exist and be complete (never a final name).       *)
 (***************************************************************************)
 EXTENDS Naturals, Sequences, FiniteSets, TLC, Json, IOUtils
 
@@ -35,19 +38,22 @@ Proc == {"me"}
 VARIABLES fs, dir, wr, child,      \* CacheFS
           l,                       \* next event
           env,                     \* this run had concurrent builders
-          spawned                  \* a child of the traced process is running
+          spawned,                 \* a child of the traced process is running
+          blind                    \* children were not recorded in this run and one of them has finished:
+                                   \* it may have created temp names (never final names) we did not see
 
 INSTANCE CacheFS
 
-vars == <<fs, dir, wr, child, l, env, spawned>>
+vars == <<fs, dir, wr, child, l, env, spawned, blind>>
 
 Ev == Log[l]
 IsEvent(e) == l <= Len(Log) /\ Log[l].e = e /\ l' = l + 1
 
-TraceInit == FsInit /\ l = 1 /\ env = FALSE /\ spawned = FALSE
+TraceInit == FsInit /\ l = 1 /\ env = FALSE /\ spawned = FALSE /\ blind = FALSE
 
 \* what the other builders may have done in the meantime (only in env runs, only final names / dirs)
-Published(n) == env /\ n \in Final /\ fs[n] = "absent"
+Published(n) == \/ env /\ n \in Final /\ fs[n] = "absent"
+                \/ blind /\ n \notin Final /\ fs[n] = "absent"      \* temp name made by an unrecorded child
 FsWith(n) == IF Published(n) THEN [fs EXCEPT ![n] = "ok"] ELSE fs
 DirOK(d) == dir[d] \/ env
 
@@ -55,88 +61,92 @@ Reset ==
   /\ IsEvent("Reset")
   /\ fs' = [n \in Name |-> "absent"] /\ dir' = [d \in Dirs |-> FALSE]
   /\ wr' = [p \in Proc |-> {}] /\ child' = [p \in Proc |-> {}]
-  /\ env' = Ev.env /\ spawned' = FALSE
+  /\ env' = Ev.env /\ spawned' = FALSE /\ blind' = FALSE
 
 TMkdir ==
   /\ IsEvent("Mkdir")
   /\ Ev.r \/ env \/ dir[Ev.d]           \* EEXIST only when somebody (or an earlier call) made it
   /\ FsMkdir("me", Ev.d)
-  /\ UNCHANGED <<env, spawned>>
+  /\ UNCHANGED <<env, spawned, blind>>
 
 TStat ==                                \* the answer must be explainable by the state of the name
   /\ IsEvent("Stat")
   /\ IF Ev.r THEN Exists(Ev.n) \/ Published(Ev.n) ELSE ~Exists(Ev.n)
-  /\ fs' = FsWith(Ev.n)
-  /\ UNCHANGED <<dir, wr, child, env, spawned>>
+  /\ fs' = IF Ev.r THEN FsWith(Ev.n) ELSE fs
+  /\ UNCHANGED <<dir, wr, child, env, spawned, blind>>
 
 TOpenW ==
   /\ IsEvent("OpenW")
   /\ DirOK(Ev.d)
   /\ FsOpenW("me", Ev.n)
-  /\ UNCHANGED <<env, spawned>>
+  /\ UNCHANGED <<env, spawned, blind>>
 
 TWrite ==
   /\ IsEvent("Write")
   /\ FsWrite("me", Ev.n)
-  /\ UNCHANGED <<env, spawned>>
+  /\ UNCHANGED <<env, spawned, blind>>
 
 TCloseW ==
   /\ IsEvent("CloseW")
   /\ FsCloseW("me", Ev.n, "ok")
-  /\ UNCHANGED <<env, spawned>>
+  /\ UNCHANGED <<env, spawned, blind>>
 
 TFsync ==
   /\ IsEvent("Fsync")
-  /\ Exists(Ev.n)
+  /\ Exists(Ev.n) \/ Published(Ev.n)
   /\ FsFsync("me", Ev.n)
-  /\ UNCHANGED <<env, spawned>>
+  /\ UNCHANGED <<env, spawned, blind>>
 
 TFsyncDir ==
   /\ IsEvent("FsyncDir")
   /\ DirOK(Ev.d)
-  /\ UNCHANGED <<fs, dir, wr, child, env, spawned>>
+  /\ UNCHANGED <<fs, dir, wr, child, env, spawned, blind>>
 
 TRename ==                              \* publication: the invariants judge what became visible
   /\ IsEvent("Rename")
-  /\ FsRename("me", Ev.s, Ev.n)
-  /\ UNCHANGED <<env, spawned>>
+  /\ Exists(Ev.s) \/ Published(Ev.s)
+  /\ fs' = [FsWith(Ev.s) EXCEPT ![Ev.n] = FsWith(Ev.s)[Ev.s], ![Ev.s] = "absent"]
+  /\ wr' = [q \in Proc |-> IF Ev.s \in wr[q] THEN (wr[q] \ {Ev.s}) \cup {Ev.n} ELSE wr[q]]
+  /\ UNCHANGED <<dir, child>>
+  /\ UNCHANGED <<env, spawned, blind>>
 
 TRead ==                                \* the reader trusts what it finds: it must be complete
   /\ IsEvent("Read")
   /\ FsWith(Ev.n)[Ev.n] = "ok"
   /\ fs' = FsWith(Ev.n)
-  /\ UNCHANGED <<dir, wr, child, env, spawned>>
+  /\ UNCHANGED <<dir, wr, child, env, spawned, blind>>
 
 TUnlink ==
   /\ IsEvent("Unlink")
   /\ FsUnlink("me", Ev.n)
-  /\ UNCHANGED <<env, spawned>>
+  /\ UNCHANGED <<env, spawned, blind>>
 
 TSpawn ==
   /\ IsEvent("Spawn")
   /\ ~spawned
   /\ spawned' = TRUE
-  /\ UNCHANGED <<fs, dir, wr, child, env>>
+  /\ UNCHANGED <<fs, dir, wr, child, env, blind>>
 
 TChildOpenW ==                          \* the spawned compiler / shell redirection creates a file
   /\ IsEvent("ChildOpenW")
   /\ spawned
   /\ fs' = [fs EXCEPT ![Ev.n] = "partial"]
   /\ child' = [child EXCEPT !["me"] = @ \cup {Ev.n}]
-  /\ UNCHANGED <<dir, wr, env, spawned>>
+  /\ UNCHANGED <<dir, wr, env, spawned, blind>>
 
 TChildUnlink ==
   /\ IsEvent("ChildUnlink")
   /\ spawned
   /\ fs' = [fs EXCEPT ![Ev.n] = "absent"]
   /\ child' = [child EXCEPT !["me"] = @ \ {Ev.n}]
-  /\ UNCHANGED <<dir, wr, env, spawned>>
+  /\ UNCHANGED <<dir, wr, env, spawned, blind>>
 
 TWait ==
   /\ IsEvent("Wait")
   /\ spawned
   /\ FsWaitChild("me", "ok")
   /\ spawned' = FALSE
+  /\ blind' = (blind \/ ~Log[l].fo)
   /\ UNCHANGED env
 
 TraceNext == \/ Reset \/ TMkdir \/ TStat \/ TOpenW \/ TWrite \/ TCloseW \/ TFsync \/ TFsyncDir
